@@ -2,6 +2,7 @@ package main
 
 import (
 	"fmt"
+	"path/filepath"
 	"go/types"
 	"strings"
 
@@ -61,6 +62,15 @@ func init() {
 		"(*expvar.Float).Add":      iNoop,
 		"(*expvar.Map).Set":        iNoop,
 		"(*tailscale.com/metrics.LabelMap).Add": iNoop,
+	}
+	intrinsics["path/filepath.Dir"] = func(in *Interp, fn *ssa.Function, a []Value) Value { return mkStr(filepath.Dir(concStr(a[0]))) }
+	intrinsics["path/filepath.Base"] = func(in *Interp, fn *ssa.Function, a []Value) Value { return mkStr(filepath.Base(concStr(a[0]))) }
+	intrinsics["path/filepath.Join"] = func(in *Interp, fn *ssa.Function, a []Value) Value {
+		var parts []string
+		for _, e := range a[0].(Slice).A {
+			parts = append(parts, concStr(e))
+		}
+		return mkStr(filepath.Join(parts...))
 	}
 	registerJSON()
 }
@@ -431,4 +441,12 @@ func iRandIntn(in *Interp, fn *ssa.Function, a []Value) Value {
 	r := in.freshBV("rand.Intn", 64)
 	in.assume(tAnd(bvCmp(">=", r, mkBV(64, 0), true), bvCmp("<", r, n, true)))
 	return r
+}
+
+func concStr(v Value) string {
+	t, ok := v.(Term)
+	if !ok || !t.C || t.S != SStr {
+		panic(abort("path function on a symbolic string"))
+	}
+	return t.Str
 }
